@@ -513,16 +513,14 @@ _pre = ' and '.join('%d <= %s <= %d' % (RANGES[n.split('_')[0]][0], n, RANGES[n.
 _src = '''
 def check(oracle: str, %s) -> bool:
     """
-    pre: %s
-    post: _
+    requires: %s
     """
     return _check(oracle, dict(%s))
 
 
 def reach(oracle: str, %s) -> bool:
     """
-    pre: %s
-    post: _
+    requires: %s
     """
     return not _check(oracle, dict(%s))
 ''' % (_sig, _pre, ', '.join('%s=%s' % (n, n) for n, t, d in VARS),
